@@ -531,6 +531,18 @@ def _parse_attrs(ctx: Ctx, c: Collector) -> None:
             return anyin
         if t[0] == "cmp" and t[1] in ("in", "notin") and t[2] == typ and t[3][0] in ("glob", "tuple", "bag"):
             return t[1] == "in"           # the table only ranges over the three simulator types
+        # the truth value of one of the sets: None and the empty set are false; a *declared* list is true or false with its contents
+        try:
+            v = aeval(t, combo)
+        except Unknown:
+            v = None
+        if v in ("None", "EMPTY"):
+            return False
+        if v == "ALL":
+            return True
+        if v is not None and v.startswith("KEY("):
+            raise Definite(f"for a {ty} simulator (any_inputs={anyin}, keys {sorted(present)}) the classification depends on whether the declared list {v[4:-1]!r} is empty: "
+                           "an explicitly empty list is treated like an absent key, so the defaults are applied although the description is complete (or inconsistent)")
         raise Unknown(f"condition {T.show(t)[:80]} not understood")
 
     def aeval(t: Term, combo) -> str:
